@@ -9,15 +9,24 @@ namespace Seed
 
 /-! ### the safety predicate on results and its rules -/
 
+/-- the state a result carries (`ok`, `err` and `crash` all carry one; `timeout` does not) -/
+def Res.state? {α : Type} : Res α → Option State
+  | .ok _ σ => some σ
+  | .err _ σ => some σ
+  | .crash _ σ => some σ
+  | .timeout => none
+
 /-- the trivial post-condition -/
 def Triv {α : Type} : State → α → Prop := fun _ _ => True
 
 /-- `r`, computed from `σ`, is not a crash other than `lock`; a successful result is `P` in a
-    well-formed extension of `σ` -/
+    well-formed extension of `σ`; the state carried by an error or by a `lock` crash is a well-formed
+    extension of `σ` too (so `WF` — dangling-free and every object cell `Sorted` — holds in EVERY state a
+    result can carry) -/
 def Safe {α : Type} (P : State → α → Prop) (σ : State) : Res α → Prop
   | .ok a σ' => WF σ' ∧ Ext σ σ' ∧ P σ' a
-  | .err _ _ => True
-  | .crash w _ => w = c!"lock"
+  | .err _ σ' => WF σ' ∧ Ext σ σ'
+  | .crash w σ' => w = c!"lock" ∧ WF σ' ∧ Ext σ σ'
   | .timeout => True
 
 namespace Safe
@@ -25,30 +34,33 @@ variable {α β : Type} {P : State → α → Prop} {Q : State → β → Prop} 
 
 theorem ok {a : α} {σ' : State} (hw : WF σ') (he : Ext σ σ') (hp : P σ' a) : Safe P σ (.ok a σ') := ⟨hw, he, hp⟩
 theorem ok_same {a : α} (hw : WF σ) (hp : P σ a) : Safe P σ (.ok a σ) := ⟨hw, Ext.refl σ, hp⟩
-theorem err {e : Err} {σ' : State} : Safe P σ (.err e σ' : Res α) := trivial
-theorem errAt {loc : Loc} {l : Gen.Leaf} {σ' : State} : Safe P σ (Seed.errAt loc l σ' : Res α) := trivial
+/-- an error raised in the current (well-formed) state; the `WF` fact is found by `assumption` -/
+theorem err {e : Err} (hw : WF σ := by assumption) : Safe P σ (.err e σ : Res α) := ⟨hw, Ext.refl σ⟩
+theorem errAt {loc : Loc} {l : Gen.Leaf} (hw : WF σ := by assumption) : Safe P σ (Seed.errAt loc l σ : Res α) :=
+  ⟨hw, Ext.refl σ⟩
+theorem err_ext {e : Err} {σ' : State} (hw : WF σ') (he : Ext σ σ') : Safe P σ (.err e σ' : Res α) := ⟨hw, he⟩
 theorem timeout : Safe P σ (.timeout : Res α) := trivial
-theorem lock {σ' : State} : Safe P σ (.crash c!"lock" σ' : Res α) := rfl
+theorem lock (hw : WF σ := by assumption) : Safe P σ (.crash c!"lock" σ : Res α) := ⟨rfl, hw, Ext.refl σ⟩
 
 theorem weaken {σ1 : State} {r : Res α} (h : Safe P σ1 r) (he : Ext σ σ1) : Safe P σ r := by
   cases r with
   | ok a σ' => exact ⟨h.1, he.trans h.2.1, h.2.2⟩
-  | err e σ' => trivial
-  | crash w σ' => exact h
+  | err e σ' => exact ⟨h.1, he.trans h.2⟩
+  | crash w σ' => exact ⟨h.1, h.2.1, he.trans h.2.2⟩
   | timeout => trivial
 
 theorem bind {r : Res α} {f : α → State → Res β} (h : Safe P σ r)
     (hf : ∀ a σ1, WF σ1 → Ext σ σ1 → P σ1 a → Safe Q σ1 (f a σ1)) : Safe Q σ (r.bind f) := by
   cases r with
   | ok a σ1 => exact weaken (hf a σ1 h.1 h.2.1 h.2.2) h.2.1
-  | err e σ1 => trivial
+  | err e σ1 => exact h
   | crash w σ1 => exact h
   | timeout => trivial
 
 theorem map {r : Res α} {f : α → β} (h : Safe P σ r) (hf : ∀ σ' a, P σ' a → Q σ' (f a)) : Safe Q σ (r.map f) := by
   cases r with
   | ok a σ1 => exact ⟨h.1, h.2.1, hf _ _ h.2.2⟩
-  | err e σ1 => trivial
+  | err e σ1 => exact h
   | crash w σ1 => exact h
   | timeout => trivial
 
@@ -58,18 +70,47 @@ theorem mapErr {r : Res α} {f : Err → Err} (h : Safe P σ r) : Safe P σ (r.m
 theorem imp {P' : State → α → Prop} {r : Res α} (h : Safe P σ r) (hp : ∀ σ' a, P σ' a → P' σ' a) : Safe P' σ r := by
   cases r with
   | ok a σ1 => exact ⟨h.1, h.2.1, hp _ _ h.2.2⟩
-  | err e σ1 => trivial
+  | err e σ1 => exact h
   | crash w σ1 => exact h
   | timeout => trivial
 
 /-- what `Safe` says about crashes -/
 theorem crash_eq {r : Res α} (h : Safe P σ r) {w : List Char} {σ' : State} (hr : r = .crash w σ') : w = c!"lock" := by
-  subst hr; exact h
+  subst hr; exact h.1
 
 /-- what `Safe` says about success (with `HeapGrows`, as in the statement of G4) -/
 theorem ok_inv {r : Res α} (h : Safe P σ r) {a : α} {σ' : State} (hr : r = .ok a σ') :
     WF σ' ∧ HeapGrows σ σ' ∧ P σ' a := by
   subst hr; exact ⟨h.1, h.2.1.heapGrows, h.2.2⟩
+
+/-- what `Safe` says about errors: the state at the point of the error is well-formed -/
+theorem err_inv {r : Res α} (h : Safe P σ r) {e : Err} {σ' : State} (hr : r = .err e σ') : WF σ' ∧ HeapGrows σ σ' := by
+  subst hr; exact ⟨h.1, h.2.heapGrows⟩
+
+/-- what `Safe` says about (lock) crashes: the state is well-formed -/
+theorem crash_inv {r : Res α} (h : Safe P σ r) {w : List Char} {σ' : State} (hr : r = .crash w σ') :
+    WF σ' ∧ HeapGrows σ σ' := by
+  subst hr; exact ⟨h.2.1, h.2.2.heapGrows⟩
+
+/-- whatever the outcome, the state a `Safe` result carries is well-formed -/
+theorem state_wf {r : Res α} (h : Safe P σ r) {σ' : State} (hr : r.state? = some σ') : WF σ' := by
+  cases r with
+  | ok a σ1 => cases hr; exact h.1
+  | err e σ1 => cases hr; exact h.1
+  | crash w σ1 => cases hr; exact h.2.1
+  | timeout => cases hr
+
+/-- … and extends the initial state -/
+theorem state_ext {r : Res α} (h : Safe P σ r) {σ' : State} (hr : r.state? = some σ') : Ext σ σ' := by
+  cases r with
+  | ok a σ1 => cases hr; exact h.2.1
+  | err e σ1 => cases hr; exact h.2
+  | crash w σ1 => cases hr; exact h.2.2
+  | timeout => cases hr
+
+/-- whatever the outcome, every object cell of the state a `Safe` result carries is strictly sorted by key -/
+theorem state_sorted {r : Res α} (h : Safe P σ r) {σ' : State} (hr : r.state? = some σ') {a : Addr} {m : ObjMap}
+    (hm : σ'.getObj a = some m) : Sorted m := (h.state_wf hr).sorted hm
 end Safe
 
 theorem ListOK.head {σ : State} {x : SVal} {xs : List SVal} (h : ListOK σ (x :: xs)) : SValOK σ x := h x List.mem_cons_self
